@@ -96,6 +96,11 @@ def cases(tier, seed):
         reqs.append(mie_ref.req_homog(1.2, x))
         out.append({"id": "ms-large:m=1.2:x=%r" % x, "kind": "ms",
                     "m": [1.2, 0.0], "x": x})
+    # ... and the largest alphabet size below that limit, where a refusal
+    # is not acceptable
+    reqs.append(mie_ref.req_homog(1.2, 22.0))
+    out.append({"id": "ms:m=1.2:x=22.0", "kind": "ms", "m": [1.2, 0.0],
+                "x": 22.0})
     for seq in _lay_seqs(tier):
         for ip, pat in enumerate(LAY_PATTERNS):
             if tier == "quick" and ip == 1 and len(seq) > 2:
@@ -316,6 +321,15 @@ def _run_ms(case, ck):
                         f = calc_field(det, clus, N_MED, WL, pol,
                                        theory=th_ms).values
                     except Exception as e:
+                        if (case["id"].startswith("ms-large") and
+                                type(e).__name__ == "InvalidScatterer" and
+                                "compiled expansion order" in str(e)):
+                            # beyond the 32 partial waves the solver is
+                            # compiled for: refused, nothing to compare
+                            ck.metric("ms-refused-beyond-compiled-order", x)
+                            ck.trans += 1
+                            fps.append("refused")
+                            continue
                         ck.true("ms-accepts-one-sphere", False,
                                 "Multisphere refused a one-sphere cluster "
                                 "(m=%r x=%r): %s: %s" %
@@ -359,6 +373,9 @@ def _run_ms(case, ck):
                     "calc_scat_matrix(Multisphere) differs from Mie by %.2e"
                     % e)
     except Exception as e:
+        if (case["id"].startswith("ms-large") and
+                "compiled expansion order" in str(e)):
+            return digest(*fps)
         ck.true("ms-scatmat-runs", False, "calc_scat_matrix(Multisphere) "
                 "raised %s: %s" % (type(e).__name__, e))
     return digest(*fps)
